@@ -6,11 +6,15 @@ open Cocls Cocls.Proto Cocls.Pool
 def kindStr : Kind → String
   | Kind.co => "co" | Kind.fn => "fn" | Kind.det => "det" | Kind.rh => "rh" | Kind.ra => "ra" | Kind.aw => "aw"
 
-def parseKind : String → Option Kind
+def parseKind0 : String → Option Kind
   | "co" => some Kind.co | "fn" => some Kind.fn | "det" => some Kind.det
   | "detL" => some Kind.det | "detF" => some Kind.det | "detG" => some Kind.det   -- closure size / container spellings
   | "rh" => some Kind.rh | "ra" => some Kind.ra | "aw" => some Kind.aw
   | _ => none
+
+def parseKind (k : String) : Option Kind :=
+  if k.startsWith "fn" && (k.drop 2).toString.toList.all (fun ch => ch == 'V' || ch == 'L' || ch == 'T') then some Kind.fn
+  else parseKind0 k
 
 def b01 (b : Bool) : String := if b then "1" else "0"
 
@@ -26,6 +30,8 @@ def evStr : Ev → String
   | Ev.run j t cur => s!"run j{j} t{t} cur={b01 cur}"
   | Ev.cancel j t => s!"cancel j{j} t{t}"
   | Ev.value j t => s!"value j{j} t{t}"
+  | Ev.exc j t => s!"exc j{j} t{t}"
+  | Ev.thrown j t => s!"throw j{j} t{t}"
   | Ev.flagBlock t f => s!"s {t} flag-block f{f}"
   | Ev.flagSet f t => s!"flag-set f{f} t{t}"
   | Ev.unlockB t => s!"s {t} unlock mxB"
@@ -66,6 +72,10 @@ def parsePrimList : List Char → List Prim
 def parsePrims (w : String) : List Prim × Bool :=
   (parsePrimList w.toList, w.toList.contains 'x')
 
+/-- `fn` may be spelled with suffix letters: `V` void-returning function, `L` large closure, `T` the function throws -/
+def throwsOf (k : String) : List Prim :=
+  if k.startsWith "fn" && (k.drop 2).toString.toList.contains 'T' then [Prim.throw_] else []
+
 def parseOp (w : String) : Option Act :=
   if w == "stop" then some Act.stop
   else if w == "destroy" then some Act.destroy
@@ -76,8 +86,8 @@ def parseOp (w : String) : Option Act :=
   else if w == "destroyB" then some Act.destroyB
   else
     match w.splitOn ":" with
-    | [k] => (parseKind k).map (fun kd => Act.submit kd [] false)
-    | [k, p] => (parseKind k).map (fun kd => Act.submit kd (parsePrims p).1 ((parsePrims p).2 && kd == Kind.det))
+    | [k] => (parseKind k).map (fun kd => Act.submit kd (throwsOf k) false)
+    | [k, p] => (parseKind k).map (fun kd => Act.submit kd ((parsePrims p).1 ++ throwsOf k) ((parsePrims p).2 && kd == Kind.det))
     | _ => none
 
 def pick (n : Nat) (s : State) (want : Option Nat) : Option Nat :=
@@ -123,7 +133,8 @@ def runCase (hdr : List String) (body : List (List String)) : List String := Id.
     let on := match s.ranOn j with
       | some t => s!"t{t}"
       | none => "-"
-    lines := lines.push s!"job j{j} {kindStr (s.kind j)} ran={s.ran j} cancelled={s.cancelled j} value={s.valued j} on={on} fut={futStr (s.fut j)}"
+    let fs := if s.fut j == Fut.value && (s.body j).contains Prim.throw_ then "exc" else futStr (s.fut j)
+    lines := lines.push s!"job j{j} {kindStr (s.kind j)} ran={s.ran j} cancelled={s.cancelled j} value={s.valued j} on={on} fut={fs}"
   if s.destroyed then lines := lines.push "pool destroyed"
   else lines := lines.push s!"pool exit={b01 s.exit} queue={s.q.length} threads={s.threads.length}"
   if hasB then
